@@ -42,4 +42,9 @@ Definition has (k : key) (s : store) : bool := match get k s with Some _ => true
 Definition listing (ft : file_type) (s : store) : list (id * N) :=
   flat_map (fun e => if ft_eqb ft (fst (fst e)) then [(snd (fst e), N.of_nat (length (snd e)))] else []) s.
 
+(* commands/repair/hotcold.rs get_missing_files: which ids count as present on both sides, and
+   which hot ids are copied to the cold store *)
+Inductive common_rule := CommonEqualSize.
+Inductive hot_only_rule := HotOnlyNotCommon | HotOnlyNotInCold.
+
 Definition isSome {A} (o : option A) : bool := match o with Some _ => true | None => false end.
